@@ -3,6 +3,7 @@
    All statements quantify over EVERY reachable state of the life-cycle LTS Srv/Conc.v: any number of requests,
    any interleaving of the receive, worker, responder and send steps, any behaviour of the implementation. *)
 From Coq Require Import NArith List Bool PeanoNat.
+From V9 Require Shape.ShapeLib Shape.PDisc.
 From V9 Require Import Lib.GoSem Gen.Consts Srv.Conc Srv.ConcProofs.
 Import ListNotations.
 
@@ -54,3 +55,10 @@ Example C08_nonvacuous :
     [LArrive 5 KOp; LArrive 5 KOp; LWStart 0; LOpCall 0; LAnswer 0 1; LR 0; LR 0; LR 0; LSend; LR 0; LR 0; LWStart 1]%N = Some s /\
   map q_pc (R s) = [WInOp; WProc].
 Proof. eexists. vm_compute. repeat split. Qed.
+
+
+(* ---- a modelling assumption about the shape of the CURRENT source (Gen/Shape.v), re-checked on every run ---- *)
+(* DecRef and Conn.close release their mutex before they call FidDestroy / ConnClosed; the hand-over of a reply is a select with the done channel *)
+Theorem C08_source_calls_the_implementation_without_a_mutex : ShapeLib.disconnect_paths = true.
+Proof. exact PDisc.disconnect_paths_ok. Qed.
+Print Assumptions C08_source_calls_the_implementation_without_a_mutex.
